@@ -123,6 +123,21 @@ func init() {
 		return nil
 	})
 	reg(zz+"ResetEnv", func(fr *frame, args []value) value { fr.i.clock = 0; fr.i.uuidSeq = 0; return nil })
+	reg(zz+"Freeze", func(fr *frame, args []value) value {
+		n := fr.i.freeze(args[1].(iface).v, args[0].(string), false)
+		fr.i.ex.notes = append(fr.i.ex.notes, fmt.Sprintf("frozen %d cells/maps reachable from %s", n, args[0].(string)))
+		return nil
+	})
+	reg(zz+"Guard", func(fr *frame, args []value) value {
+		fr.i.freeze(args[1].(iface).v, args[0].(string), true)
+		return nil
+	})
+	reg(zz+"Parallel", func(fr *frame, args []value) value {
+		// symbolically one goroutine's worth: the monitors check the discipline
+		// that makes every interleaving race free
+		fr.i.callFn(fr, args[1], 0)
+		return nil
+	})
 	reg(zz+"Unwind", func(fr *frame, args []value) value { fr.i.ex.unwind = args[0].(int); return nil })
 	reg(zz+"SymbolicMapOrder", func(fr *frame, args []value) value { fr.i.ex.symOrder = args[0].(bool); return nil })
 
